@@ -120,11 +120,12 @@ class ChooseTransferDecoder(Contract):
     inputs = dict(header=OneOf(b"Content-Length", b"Transfer-Encoding", b"Content-Type"),
                   data=Bytes(alphabet=b"15a ", small_len=2, maxlen=6),  # length values of up to 6 characters
                   te=OneOf(b"chunked", b"Chunked", b"CHUNKED", b"identity", b"gzip", b"chunked, gzip", b"chunked ", b""),
-                  already=ForkBool())
+                  already=ForkBool(),
+                  prev_len=Int(lo=0, small=[0, 7]))  # the length an earlier framing header established (0 for Content-Length: 0)
 
     def setup(self, i):
         existing = self.opaque("existing_decoder") if i.already else None
-        ch = self.make(http.HTTPChannel, _transferDecoder=existing, length=7 if i.already else 0,
+        ch = self.make(http.HTTPChannel, _transferDecoder=existing, length=i.prev_len if i.already else 0,
                        requests=[self.opaque("request")])
         data = i.te if i.header == b"Transfer-Encoding" else i.data
         return dict(self=ch, args=[i.header, data], objs=dict(ch=ch), ghost=dict(data=data, existing=existing))
